@@ -234,7 +234,7 @@ impl<'u, 'de> serde::Deserializer<'de> for &'u mut URLEncodedDeserializer<'de> {
 
     fn deserialize_seq<V>(self, visitor: V) -> Result<V::Value, Self::Error>
     where V: serde::de::Visitor<'de> {
-        visitor.visit_seq(CommaSeparated::new(self))
+        visitor.visit_seq(CommaSeparated::new(self)?)
     }
     fn deserialize_tuple<V>(self, _len: usize, visitor: V) -> Result<V::Value, Self::Error>
     where V: serde::de::Visitor<'de> {
@@ -256,7 +256,7 @@ impl<'u, 'de> serde::Deserializer<'de> for &'u mut URLEncodedDeserializer<'de> {
             assert!(self.side == ParsingSide::Value);
         }
 
-        match percent_decode(self.next_section().unwrap()) {
+        match percent_decode(self.next_section()?) {
             Cow::Borrowed(slice) => visitor.visit_bytes(slice),
             Cow::Owned(byte_vec) => visitor.visit_byte_buf(byte_vec),
         }
@@ -276,7 +276,7 @@ impl<'u, 'de> serde::Deserializer<'de> for &'u mut URLEncodedDeserializer<'de> {
             assert!(self.side == ParsingSide::Value);
         }
 
-        match self.next_section().unwrap() {
+        match self.next_section()? {
             b"true"  => visitor.visit_bool(true),
             b"false" => visitor.visit_bool(false),
             other   => Err(serde::de::Error::custom(format!(
@@ -292,7 +292,7 @@ impl<'u, 'de> serde::Deserializer<'de> for &'u mut URLEncodedDeserializer<'de> {
             assert!(self.side == ParsingSide::Value);
         }
 
-        let section = self.next_section().unwrap();
+        let section = self.next_section()?;
         let section = std::str::from_utf8(section)
             .map_err(|_| serde::de::Error::custom(
                 format!("Expected a number, but got `{}`", section.escape_ascii())
@@ -309,7 +309,7 @@ impl<'u, 'de> serde::Deserializer<'de> for &'u mut URLEncodedDeserializer<'de> {
             assert!(self.side == ParsingSide::Value);
         }
 
-        let section = self.next_section().unwrap();
+        let section = self.next_section()?;
         let section = std::str::from_utf8(section)
             .map_err(|_| serde::de::Error::custom(
                 format!("Expected a number, but got `{}`", section.escape_ascii())
@@ -327,7 +327,7 @@ impl<'u, 'de> serde::Deserializer<'de> for &'u mut URLEncodedDeserializer<'de> {
             assert!(self.side == ParsingSide::Value);
         }
 
-        let section = self.next_section().unwrap();
+        let section = self.next_section()?;
         let section = std::str::from_utf8(section)
             .map_err(|_| serde::de::Error::custom(
                 format!("Expected an integer, but got `{}`", section.escape_ascii())
@@ -344,7 +344,7 @@ impl<'u, 'de> serde::Deserializer<'de> for &'u mut URLEncodedDeserializer<'de> {
             assert!(self.side == ParsingSide::Value);
         }
 
-        let section = self.next_section().unwrap();
+        let section = self.next_section()?;
         let section = std::str::from_utf8(section)
             .map_err(|_| serde::de::Error::custom(
                 format!("Expected an integer, but got `{}`", section.escape_ascii())
@@ -361,7 +361,7 @@ impl<'u, 'de> serde::Deserializer<'de> for &'u mut URLEncodedDeserializer<'de> {
             assert!(self.side == ParsingSide::Value);
         }
 
-        let section = self.next_section().unwrap();
+        let section = self.next_section()?;
         let section = std::str::from_utf8(section)
             .map_err(|_| serde::de::Error::custom(
                 format!("Expected an integer, but got `{}`", section.escape_ascii())
@@ -378,7 +378,7 @@ impl<'u, 'de> serde::Deserializer<'de> for &'u mut URLEncodedDeserializer<'de> {
             assert!(self.side == ParsingSide::Value);
         }
 
-        let section = self.next_section().unwrap();
+        let section = self.next_section()?;
         let section = std::str::from_utf8(section)
             .map_err(|_| serde::de::Error::custom(
                 format!("Expected an integer, but got `{}`", section.escape_ascii())
@@ -396,7 +396,7 @@ impl<'u, 'de> serde::Deserializer<'de> for &'u mut URLEncodedDeserializer<'de> {
             assert!(self.side == ParsingSide::Value);
         }
 
-        let section = self.next_section().unwrap();
+        let section = self.next_section()?;
         let section = std::str::from_utf8(section)
             .map_err(|_| serde::de::Error::custom(
                 format!("Expected an integer, but got `{}`", section.escape_ascii())
@@ -413,7 +413,7 @@ impl<'u, 'de> serde::Deserializer<'de> for &'u mut URLEncodedDeserializer<'de> {
             assert!(self.side == ParsingSide::Value);
         }
 
-        let section = self.next_section().unwrap();
+        let section = self.next_section()?;
         let section = std::str::from_utf8(section)
             .map_err(|_| serde::de::Error::custom(
                 format!("Expected an integer, but got `{}`", section.escape_ascii())
@@ -430,7 +430,7 @@ impl<'u, 'de> serde::Deserializer<'de> for &'u mut URLEncodedDeserializer<'de> {
             assert!(self.side == ParsingSide::Value);
         }
 
-        let section = self.next_section().unwrap();
+        let section = self.next_section()?;
         let section = std::str::from_utf8(section)
             .map_err(|_| serde::de::Error::custom(
                 format!("Expected an integer, but got `{}`", section.escape_ascii())
@@ -447,7 +447,7 @@ impl<'u, 'de> serde::Deserializer<'de> for &'u mut URLEncodedDeserializer<'de> {
             assert!(self.side == ParsingSide::Value);
         }
 
-        let section = self.next_section().unwrap();
+        let section = self.next_section()?;
         let section = std::str::from_utf8(section)
             .map_err(|_| serde::de::Error::custom(
                 format!("Expected an integer, but got `{}`", section.escape_ascii())
@@ -517,7 +517,7 @@ const _: () = {
         fn variant_seed<V>(self, seed: V) -> Result<(V::Value, Self::Variant), Self::Error>
         where V: serde::de::DeserializeSeed<'de> {
             Ok((
-                seed.deserialize(self.de.next_section().unwrap().into_deserializer())?,
+                seed.deserialize(self.de.next_section()?.into_deserializer())?,
                 self,
             ))
         }
@@ -558,11 +558,11 @@ struct CommaSeparated<'de> {
     first:   bool,
 }
 impl<'de> CommaSeparated<'de> {
-    fn new(de: &mut URLEncodedDeserializer<'de>) -> Self {
-        Self {
-            section: de.next_section().unwrap(),
+    fn new(de: &mut URLEncodedDeserializer<'de>) -> Result<Self, super::Error> {
+        Ok(Self {
+            section: de.next_section()?,
             first:   true,
-        }
+        })
     }
 }
 const _: () = {
